@@ -3,6 +3,7 @@ package main
 import (
 	"encoding/json"
 	"fmt"
+	restful "github.com/emicklei/go-restful/v3"
 	"net/http"
 	"os"
 	"sync/atomic"
@@ -236,6 +237,7 @@ type routingCase struct {
 	Options  bool       `json:"options_filter,omitempty"`
 	Switched bool       `json:"router_switched_first,omitempty"` // the other router was configured first
 	Reuse    bool       `json:"builder_reused,omitempty"`
+	Late     bool       `json:"router_switched_after_serving,omitempty"` // the container served requests under the other router before it was switched
 	Tier     string     `json:"tier,omitempty"`
 	Lite     bool       `json:"lite,omitempty"`
 	ReqIndex int        `json:"req_index,omitempty"` // position of Req in the sweep's request list (history replay)
@@ -261,6 +263,25 @@ func replayRouting(oracle func(rc routingCase, o rs.Outcome) error) replayFn {
 		b := rs.Build(rc.Table, rs.BuildOpt{Router: routerOf(rc.Router), Filter: rc.Filter, Longhand: rc.Longhand, Options: rc.Options, Switched: rc.Switched, Reuse: rc.Reuse})
 		if b.Panic != "" {
 			return fmt.Errorf("container construction panics: %s", b.Panic)
+		}
+		if rc.Late {
+			// the same request (and its GET / POST twins) under the other router first, then the switch
+			other := rm.JSR311
+			if routerOf(rc.Router) == rm.JSR311 {
+				other = rm.Curly
+			}
+			b = rs.Build(rc.Table, rs.BuildOpt{Router: other})
+			for _, m := range []string{rc.Req.Method, "GET", "POST"} {
+				q := rc.Req
+				q.Method = m
+				fmt.Printf("under the other router: %s %s -> %s\n", m, q.Path(), b.Do(q.HTTP(), h.NewRec(), false).Key())
+			}
+			if routerOf(rc.Router) == rm.JSR311 {
+				b.C.Router(restful.RouterJSR311{})
+			} else {
+				b.C.Router(restful.CurlyRouter{})
+			}
+			b.Router = routerOf(rc.Router)
 		}
 		o := b.Do(rc.Req.HTTP(), h.NewRec(), rc.Serve)
 		fmt.Printf("table: %v\nrequest: %v\nobserved: %s\n", rc.Table, rc.Req, o.Key())
